@@ -465,7 +465,7 @@ def iter_attrs(n):
         for c in n.children:
             for a in iter_attrs(c): yield a
 
-NONTRIV = {'big-run', 'must-escape', 'attr-escape', 'char-ref-needed', 'cdata-split', 'entity-ref', 'doctype', 'needs-fixup', 'cdata', 'defaulted-attr'}
+NONTRIV = {'shadow', 'big-run', 'must-escape', 'attr-escape', 'char-ref-needed', 'cdata-split', 'entity-ref', 'doctype', 'needs-fixup', 'cdata', 'defaulted-attr'}
 
 def ser_options(draw, encs, whole_only=False, version='1.0'):
     enc = draw(st.sampled_from(encs))
@@ -607,6 +607,46 @@ def gen_string(draw, max_size=8, bad_ok=True, min_size=1, alpha=None):
         parts.insert(draw(st.integers(0, len(parts))), draw(st.sampled_from(BAD_CHARS)))
     return ''.join(parts)
 
+# ---- prefix shadowing: ONE prefix (or the default namespace) deliberately re-bound along a path of depth >= 3, so that the innermost
+# declaration differs from an outer one that matches the node (A,B,A / A,none,A ...).  Fix-up has to re-declare at every change; a scope
+# walk that accepts a shadowed outer binding would leave {A}leaf in namespace B after the round trip.
+SHADOW_SEQS_P = [['urn:s1', 'urn:s2', 'urn:s1'], ['urn:s1', 'urn:s2', 'urn:s1', 'urn:s2'], ['urn:s1', 'urn:s2', 'urn:s2', 'urn:s1'],
+                 ['urn:s1', 'urn:s2', 'urn:s3', 'urn:s1'], ['urn:p', 'urn:s2', 'urn:p']]
+SHADOW_SEQS_D = [['urn:s1', None, 'urn:s1'], ['urn:s1', 'urn:s2', 'urn:s1'], ['urn:s1', None, 'urn:s2', 'urn:s1'], ['urn:d', None, 'urn:d', None],
+                 ['urn:s1', None, None, 'urn:s1']]
+@st.composite
+def gen_shadow(draw):
+    """-> (head element, label set) : a chain of nested elements using one prefix for alternating namespaces"""
+    pfx = draw(st.sampled_from(['p', '', 'p', 'q']))
+    seq = list(draw(st.sampled_from(SHADOW_SEQS_D if pfx == '' else SHADOW_SEQS_P)))
+    leaf_attr = pfx != '' and draw(st.integers(0, 2)) == 0          # the last namespace is used by a prefixed attribute instead of an element
+    declare = draw(st.sampled_from(['none', 'none', 'all', 'some']))    # explicit xmlns attribute nodes on the chain elements
+    labels = {'shadow', 'shadow:' + ('default' if pfx == '' else 'prefix'), 'shadow:decl-' + declare, 'shadow:len%d' % len(seq)}
+    if None in seq: labels.add('shadow:none')
+    if leaf_attr: labels.add('shadow:attr')
+    head = None; cur = None
+    for k, uri in enumerate(seq):
+        last = k == len(seq) - 1
+        if last and leaf_attr:
+            # element outside the game (other prefix or no namespace at all) carrying  pfx:at  in namespace seq[-1]
+            epfx, euri = draw(st.sampled_from([('r', 'urn:r2'), (None, None)]))
+            el = {'k': 'E', 'local': 'leaf', 'attrs': [(pfx, 'at', uri, 'v%d' % k)], 'children': [], 'prefix': epfx, 'ns': euri, 'decls': []}
+            used = {pfx: uri}
+            if epfx: used[epfx] = euri
+        else:
+            el = {'k': 'E', 'local': 'leaf' if last else 's%d' % k, 'attrs': [], 'children': [], 'prefix': pfx or None, 'ns': uri, 'decls': []}
+            used = {pfx: uri} if uri is not None else {}
+            if pfx and draw(st.integers(0, 3)) == 0:
+                el['attrs'].append((pfx, 'a%d' % k, uri, 'w'))          # attribute in the element's own binding
+            if draw(st.integers(0, 2)) == 0: el['children'].append({'k': 'T', 'v': 't%d' % k})
+        if declare == 'all' or (declare == 'some' and draw(st.booleans())):
+            el['decls'] = sorted(used.items())
+            if pfx == '' and uri is None and not (last and leaf_attr): el['decls'] = [('', '')]      # explicit xmlns=""
+        if cur is None: head = el
+        else: cur['children'].append(el)
+        cur = el
+    return head, labels
+
 @st.composite
 def build_case_strategy(draw, encs):
     nsmode = draw(st.booleans())
@@ -659,10 +699,20 @@ def build_case_strategy(draw, encs):
             node = {'k': where, 'v': v}
             if where == 'PI': node['t'] = 't'
             root['children'].insert(min(pos, len(root['children'])), node)
+    shadow = None
+    if nsmode and draw(st.integers(0, 5)) == 3:
+        chain, shadow = draw(gen_shadow())
+        where = draw(st.integers(0, 2))
+        if where == 0 and not big: root = chain                                        # the chain is the document element
+        else:
+            host = root
+            while where == 2 and any(c['k'] == 'E' for c in host['children']) and host is root:
+                host = [c for c in host['children'] if c['k'] == 'E'][0]   # one level down: an unrelated scope above the chain
+            host['children'].insert(min(draw(st.integers(0, 3)), len(host['children'])), chain)
     misc_before = [{'k': 'C', 'v': draw(gen_string(4, min_size=0, alpha=MISC_ALPHA))} for _ in range(draw(st.integers(0, 1)))]
     misc_after = [{'k': 'PI', 't': 't', 'v': draw(gen_string(4, min_size=0, alpha=MISC_ALPHA)).lstrip(' \t\r\n')} for _ in range(draw(st.integers(0, 1)))]
     standalone = draw(st.booleans())
-    return nsmode, s, root, misc_before, misc_after, standalone, excluded, big
+    return nsmode, s, root, misc_before, misc_after, standalone, excluded, big, shadow
 
 def build_build_case(nsmode, s, root, misc_before, misc_after, standalone, pre_excluded, stats=None):
     """-> (case | None, excluded-ids, labels)"""
@@ -939,8 +989,9 @@ def worker(ctx):
         if labels & NONTRIV: st_.sample({'lane': 'parse', 'ser': case['ser'], 'doc': text[:300]}, limit=2)
         account(case, labels, ok, detail, info, [case['doc_b64'], case['feat'], case['ser']])
     def prop_build(c):
-        nsmode, s, root, mb, ma, sa, pre, big = c
+        nsmode, s, root, mb, ma, sa, pre, big, shadow = c
         case, excluded, labels = build_build_case(nsmode, s, root, mb, ma, sa, pre)
+        if shadow: labels |= shadow
         if big: labels |= {'big-run', 'big:' + big[0], 'big:' + big[2], 'big:%d' % big[1]}
         for i in set(excluded): st_.excluded_known[i] += 1
         if case is None: return
